@@ -33,7 +33,12 @@ _PARSE_OPTS = {"shims": ("re", "io", "math", "struct"), "methods": _STR_METHODS,
 _PARSE_FULL = {m: dict(_PARSE_OPTS) for m in ("xdsl.utils.mlir_lexer", "xdsl.utils.lexer", "xdsl.parser.core", "xdsl.parser.base_parser", "xdsl.parser.generic_parser", "xdsl.parser.attribute_parser",
                                                "xdsl.parser.affine_parser", "xdsl.printer", "xdsl.utils.base_printer", "xdsl.dialects.builtin", "xdsl.utils.hints")}
 
+_IR_TEXT_FULL = dict(_PARSE_FULL)
+_IR_TEXT_FULL["xdsl.parser.core"] = dict(_PARSE_OPTS, calls=("dict", "defaultdict"))
+_IR_TEXT_FULL["xdsl.ir.core"] = {"shims": ("re",), "methods": _STR_METHODS}
+
 CHECKS = {
+    "C04": {"module": "vx.checks.c04", "instrument": {"full": _IR_TEXT_FULL}, "maxtasksperchild": 10},
     "C06": {"module": "vx.checks.c06", "instrument": {"full": _PARSE_FULL}, "maxtasksperchild": 20},
     "C18": {"module": "vx.checks.c18", "instrument": {"full": _TEXT_FULL}, "maxtasksperchild": 20},
     "C09": {"module": "vx.checks.c09", "instrument": {}, "maxtasksperchild": 60},
